@@ -7,20 +7,36 @@ CONTRACT_ACTS = ("ContractPut", "Migrate", "Destroy", "Deploy", "DeployRefused")
 
 
 def segment(path):
-    """cut a model path into transactions and block commits; returns (segments, expected model state after each)"""
+    """cut a model path into transactions and block commits; returns (segments, expected model state after each).
+    Inside a script, Contract.Create for a DESTROYED address is an error that aborts the whole transaction
+    (for a merely deployed address it is a silent no-op): such a transaction is expected to fail and to leave the
+    state it started from, and the path is cut there (the model continued as if the refusal were silent)."""
     segs, exp, cur = [], [], []
+    state = path["init"]
+    tx_start = path["init"]
+    aborts = False
     for st in path["steps"]:
         n = st["act"]["name"]
         if n in CONTRACT_ACTS:
+            if not cur:
+                tx_start = state
+            if n == "DeployRefused" and st["act"]["c"] in state["destroyed"]:
+                aborts = True
             cur.append(st["act"])
         elif n in ("CacheCommit", "CacheReset"):
             if cur:
+                alone_deploy = len(cur) == 1 and cur[0]["name"] in ("Deploy", "DeployRefused") and n == "CacheCommit"
+                if aborts and not alone_deploy:
+                    segs.append({"tx": {"acts": cur, "end": n}})
+                    exp.append((tx_start, cur, "Aborted"))
+                    return segs, exp
                 segs.append({"tx": {"acts": cur, "end": n}})
                 exp.append((st["to"], cur, n))
-            cur = []
+            cur, aborts = [], False
         elif n == "OvlCommit":
             segs.append({"commit": True})
             exp.append((st["to"], None, n))
+        state = st["to"]
     return segs, exp   # trailing actions without a closing CacheCommit/CacheReset are dropped
 
 
@@ -65,7 +81,7 @@ def neo_binding(ctx):
         if o.get("err"):
             ctx.violation("neo:%s:error" % names, o["err"], rp)
             continue
-        want_state = -1 if acts is None else (1 if end == "CacheCommit" else 0)
+        want_state = -1 if acts is None else (1 if end == "CacheCommit" else 0)   # "CacheReset" and "Aborted" fail
         if acts is not None and len(acts) == 1 and acts[0]["name"] == "DeployRefused" and o["kind"] == "deploytx":
             want_state = 0      # a deploy transaction for a deployed / destroyed address must fail
         bad = None
